@@ -1,4 +1,6 @@
 import DimodProofs.ContainerProofs
+import DimodProofs.DqmFile
+import DimodProofs.JsonContracts
 
 /-! # C10 — a truncated model file never loads as a different model -/
 
@@ -105,6 +107,107 @@ theorem truncation_safe_dqm_partial (parse : Bytes → Option (Bool × H)) (pars
           .ok ((h, d, if labelled then some labels else none), []) ∧
         (dqmEncode hdrText labelled npz varsText).length - pad ≤ k) := by
   obtain ⟨pad, hp, hc⟩ := Comp.dqm parse parseVars npLoad nvarsOf hdrText npz varsText labelled h d labels hh hz hsz hv
+  exact ⟨pad, hp, fun k hk => hc.truncation_safe k hk⟩
+
+/-- **CQM files cut at any byte offset — the whole loader** (header, archive, every member, header
+    consistency check), under `ZipContract` only: the complete archive opens to the members
+    written; a proper prefix opens, with identical members, exactly when only bytes after the
+    end-of-central-directory record were lost (`tail` of them; `0` for what dimod writes), and
+    otherwise does not open.  Then loading the first `k` bytes of a CQM file raises, or returns the
+    original CQM content having lost at most those `tail` bytes.  Never another model. -/
+theorem truncation_safe_cqm (parseHdr : Bytes → Option CqmCounts) (openZip : Bytes → Option Archive)
+    (parse : Bytes → Option (QHeader J)) (okLabel : List Char → Bool) (isz dsz : Nat) (m : CqmContent)
+    (hdrText zipBytes : Bytes) (tail : Nat) (wf : CqmWF parse okLabel isz dsz m)
+    (hh : HeaderOK parseHdr hdrText (cqmCounts m.erase)) (hz : ZipContract openZip zipBytes (cqmMembers isz m) tail)
+    (htail : tail < zipBytes.length) (k : Nat) (hk : k < (makeHeader cqmPrefix 2 0 hdrText ++ zipBytes).length) :
+    (∃ e, cqmFileLoad true dsz parseHdr openZip parse okLabel ((makeHeader cqmPrefix 2 0 hdrText ++ zipBytes).take k) = .err e) ∨
+    (cqmFileLoad true dsz parseHdr openZip parse okLabel ((makeHeader cqmPrefix 2 0 hdrText ++ zipBytes).take k) = .ok m.erase ∧
+      (makeHeader cqmPrefix 2 0 hdrText ++ zipBytes).length ≤ k + tail) := by
+  unfold cqmFileLoad
+  rcases containerLoad_trunc cqmPrefix hdrText zipBytes 2 0 parseHdr _ cqmVerOk openZip _ tail hh (by decide) hz htail k hk with
+    ⟨e, he⟩ | ⟨hok, hle⟩
+  · left; exact ⟨e, by rw [he]; rfl⟩
+  · right
+    refine ⟨?_, hle⟩
+    rw [hok]
+    simp only [Res.bind, cqmDecodeChecked]
+    have hn : (cqmCounts m.erase).numVariables = m.varinfo.length := rfl
+    rw [hn, cqmDecode_members parse okLabel isz dsz m wf]
+    simp [Res.bind]
+
+/-- **DQM files cut at any byte offset — the whole loader** (header, `BIAS` frame, `np.load` of the
+    blob, `from_numpy_vectors` with all its validation, `VARS`), under `ZipContract` for the npz blob
+    only: an exception, or the original DQM having lost only padding of the `VARS` section
+    (labelled) or at most `tail` bytes after the blob's end-of-central-directory record. -/
+theorem truncation_safe_dqm (parse : Bytes → Option (Bool × H)) (parseVars : Bytes → Option (List J))
+    (openNpz : Bytes → Option (List NpyMember)) (hdrText npz varsText : Bytes) (labelled : Bool) (h : H) (c : DqmContent)
+    (labels : List J) (tail : Nat) (hh : HeaderOK parse hdrText (labelled, h)) (wf : DqmWF c)
+    (hz : ZipContract openNpz npz (dqmMembers c) tail) (hsz : npz.length < 256 ^ 4)
+    (hv : labelled = true → VarsOK parseVars varsText labels ∧ labels.length = c.caseStarts.length) :
+    ∃ pad, (pad < 64 ∨ pad = tail) ∧ ∀ k, k < (dqmEncode hdrText labelled npz varsText).length →
+      (∃ e, (dqmDecode parse parseVars (fun blob => (openNpz blob).bind fun ms => match dqmFromMembers ms with | .ok d => some d | _ => none)
+          (fun d => d.caseStarts.length)).run ((dqmEncode hdrText labelled npz varsText).take k) = .err e) ∨
+      ((dqmDecode parse parseVars (fun blob => (openNpz blob).bind fun ms => match dqmFromMembers ms with | .ok d => some d | _ => none)
+          (fun d => d.caseStarts.length)).run ((dqmEncode hdrText labelled npz varsText).take k) =
+            .ok ((h, c, if labelled then some labels else none), []) ∧
+        (dqmEncode hdrText labelled npz varsText).length - pad ≤ k) := by
+  have hc : ZipContract (fun blob => (openNpz blob).bind fun ms => match dqmFromMembers ms with | .ok d => some d | _ => none) npz c tail :=
+    ⟨by simp [hz.full, dqmFromMembers_members c wf], fun j hj hle => by simp [hz.keep j hj hle, dqmFromMembers_members c wf],
+     fun j hj => by simp [hz.lose j hj]⟩
+  obtain ⟨pad, hp, hcomp⟩ := Comp.dqmZ parse parseVars _ (fun d : DqmContent => d.caseStarts.length) hdrText npz varsText labelled h c labels
+    tail hh hc hsz hv
+  exact ⟨pad, hp, fun k hk => hcomp.truncation_safe k hk⟩
+
+/-- **`json.loads` rejects every proper prefix** of the texts the writers emit: a dumped array or
+    string (the `VARS` section, `variable_labels.json`, a directory name) and a dumped header
+    dictionary.  This discharges the `cut` half of `JsonContract`, which the section truncation
+    theorems assumed; the proof is extension stability of the modelled scanners
+    (`scan_stable`, `scanString_stable`, `scanNumber_stable`, `scanItems_stable`) plus the round trip. -/
+theorem json_prefix_rejected (esc : Bool) (v : JVal) (hv : JOK v) (hsd : SelfDelim (dumpsE esc v))
+    (d : HDict) (hd : ∀ kv ∈ d, FOK kv.2) :
+    (∀ k, k < (dumpsE esc v).length → loadsJ ((dumpsE esc v).take k) = none) ∧
+    (∀ k, k < (dumpsDict d).length → loadsDict ((dumpsDict d).take k) = none) := by
+  refine ⟨fun k hk => loadsJ_dumps_prefix_none esc v hv hsd k hk, fun k hk => ?_⟩
+  obtain ⟨b1, b2⟩ := items_bounds d
+  refine loadsDict_prefix_none d hd (fun kv hkv => ?_) (by simp only [dumpsDict, List.length_cons, List.length_append, List.length_nil]; omega) k hk
+  have := fieldSize_le kv.2 (hd kv hkv)
+  have := b1 kv hkv
+  simp only [dumpsDict, List.length_cons, List.length_append, List.length_nil]; omega
+
+/-- **QM files cut at any byte offset, no JSON oracle** (header and label texts written by the model
+    and parsed by the modelled `json.loads`) -/
+theorem truncation_safe_qm_json (dsz isz : Nat) (vi : VarInfo) (c : QContent) (labels : List FLabel)
+    (hd : dsz = 4 ∨ dsz = 8) (hi : isz = 4 ∨ isz = 8) (hl : JOKs (serializeLabels labels))
+    (wf : QmWF (qmHeaderOf dsz isz c labels) vi c)
+    (hlen : (dumpsDict (qmDict (qmHeaderDict dsz isz c labels))).length + 65 < 2 ^ 32)
+    (hvlen : (dumpsJ (.arr (serializeLabels labels))).length + 64 < 256 ^ nlb4) :
+    ∃ pad, pad < 64 ∧ ∀ k, k < (qmEncode (qmHeaderText dsz isz c labels) (qmHeaderOf dsz isz c labels) vi c (varsTextOf labels)).length →
+      (∃ e, (qmDecode true parseQmHeader parseVarsReal).run
+          ((qmEncode (qmHeaderText dsz isz c labels) (qmHeaderOf dsz isz c labels) vi c (varsTextOf labels)).take k) = .err e) ∨
+      ((qmDecode true parseQmHeader parseVarsReal).run
+          ((qmEncode (qmHeaderText dsz isz c labels) (qmHeaderOf dsz isz c labels) vi c (varsTextOf labels)).take k) =
+            .ok (qmResult (qmHeaderOf dsz isz c labels) vi c (serializeLabels labels), []) ∧
+        (qmEncode (qmHeaderText dsz isz c labels) (qmHeaderOf dsz isz c labels) vi c (varsTextOf labels)).length - pad ≤ k) := by
+  obtain ⟨pad, hp, hc⟩ := Comp.qm_json dsz isz vi c labels hd hi hl wf hlen hvlen
+  exact ⟨pad, hp, fun k hk => hc.truncation_safe k hk⟩
+
+/-- **BQM files (format 1 and 2) cut at any byte offset, no JSON oracle** -/
+theorem truncation_safe_bqm_json (maj : UInt8) (ignore : Bool) (vartype dsz isz : Nat) (c : QContent) (labels : List FLabel)
+    (hmaj : maj.toNat < 3) (hd : dsz = 4 ∨ dsz = 8) (hi : isz = 4 ∨ isz = 8) (hv : vartype = 0 ∨ vartype = 1)
+    (hl : JOKs (serializeLabels labels))
+    (wf : BqmWF (bqmHeaderOf maj.toNat ignore vartype dsz isz c labels) c)
+    (hlen : (dumpsDict (bqmDict (bqmHeaderDict maj.toNat ignore vartype dsz isz c labels))).length + 65 < 2 ^ 32)
+    (hvlen : (dumpsJ (.arr (serializeLabels labels))).length + 64 < 256 ^ nlb4) :
+    ∃ pad, pad < 64 ∧ ∀ k, k < (bqmEncode maj (bqmHeaderText maj.toNat ignore vartype dsz isz c labels)
+        (bqmHeaderOf maj.toNat ignore vartype dsz isz c labels) c (varsTextOf labels)).length →
+      (∃ e, (bqmDecode parseBqmHeader parseVarsReal).run ((bqmEncode maj (bqmHeaderText maj.toNat ignore vartype dsz isz c labels)
+          (bqmHeaderOf maj.toNat ignore vartype dsz isz c labels) c (varsTextOf labels)).take k) = .err e) ∨
+      ((bqmDecode parseBqmHeader parseVarsReal).run ((bqmEncode maj (bqmHeaderText maj.toNat ignore vartype dsz isz c labels)
+          (bqmHeaderOf maj.toNat ignore vartype dsz isz c labels) c (varsTextOf labels)).take k) =
+            .ok (bqmResult maj (bqmHeaderOf maj.toNat ignore vartype dsz isz c labels) c (serializeLabels labels), []) ∧
+        (bqmEncode maj (bqmHeaderText maj.toNat ignore vartype dsz isz c labels)
+          (bqmHeaderOf maj.toNat ignore vartype dsz isz c labels) c (varsTextOf labels)).length - pad ≤ k) := by
+  obtain ⟨pad, hp, hc⟩ := Comp.bqm_json maj ignore vartype dsz isz c labels hmaj hd hi hv hl wf hlen hvlen
   exact ⟨pad, hp, fun k hk => hc.truncation_safe k hk⟩
 
 end C10
